@@ -122,7 +122,8 @@ _UNOPS = {ast.Not: 'not', ast.USub: '-', ast.UAdd: '+', ast.Invert: '~'}
 
 
 class SymExec(object):
-    def __init__(self, fn, unroll=1, on_call=None, on_stmt=None, init_env=None, implicit_except=True):
+    def __init__(self, fn, unroll=1, on_call=None, on_stmt=None, init_env=None, implicit_except=True,
+                 watch_attrs=None):
         self.fn = fn
         self.unroll = unroll
         self.on_call = on_call
@@ -130,6 +131,15 @@ class SymExec(object):
         self.init_env = init_env or {}
         self.implicit_except = implicit_except
         self.count = 0
+        self.watch_attrs = watch_attrs or ()
+        a = getattr(fn, 'args', None)
+        self._params = set()
+        if a is not None:
+            self._params = {x.arg for x in a.posonlyargs + a.args + a.kwonlyargs}
+            if a.vararg:
+                self._params.add(a.vararg.arg)
+            if a.kwarg:
+                self._params.add(a.kwarg.arg)
         self._guard = []    # conditions under which the expression being evaluated is reached (IfExp / and / or)
 
     # -- expressions -------------------------------------------------------
@@ -141,13 +151,17 @@ class SymExec(object):
             if n.id in st.env:
                 return st.env[n.id]
             pre = n.id + '.'
-            fields = tuple(sorted((k[len(pre):], v) for k, v in st.env.items()
+            fields = () if n.id in self._params else tuple(sorted((k[len(pre):], v) for k, v in st.env.items()
                                   if isinstance(k, str) and k.startswith(pre) and '.' not in k[len(pre):]))
             if fields:      # a record assembled field by field (e.g. a cdef struct / pair)
                 return ('record', n.id, fields)
             return ('name', n.id)
         if isinstance(n, ast.Attribute):
             b = E(n.value)
+            if n.attr in self.watch_attrs:
+                st.events.append(('getattr', b, n.attr, n))
+                if self._guard:
+                    st.data.setdefault('guards', {})[id(n)] = tuple(self._guard)
             if b[0] == 'record':
                 for k, v in b[2]:
                     if k == n.attr:
